@@ -51,6 +51,7 @@ RULE = ("css: generated declaration lists (allow-listed / other properties, case
         "+ linkable elements with their URL attribute and URLs of ~20 schemes incl. data:/javascript:/blob: and obfuscations "
         "+ attribute values (style, href, title, alt, src) with multiply encoded character references (depth 1-3; decimal, hex, named; with and without the terminating semicolon) whose separator / quote / colon only appears after a second entity decoding "
         "+ spliced markup: a stray less-than, then a comment / bogus comment / processing instruction / CDATA / empty end tag, then text that reads like the inside of a start tag (disallowed style, event handler, script URL, forbidden element), also tag text cut by such a token "
+        "+ URL-valued attributes other than href/src/cite (background, poster, action, ...) on table and other elements with script-scheme values that also hold cid:/http:// somewhere; code points an NFC normalisation of the output turns into syntax (U+037E, U+1FEF, U+212A; U+0338 and other combining marks right after a greater-than, less-than, equals sign, quote) "
         "+ documents with ONE very long token of every kind (text run, attribute value, raw-text element, comment, unterminated tag, many attributes; 32 KiB, 64 KiB +- a few bytes, 150-400 KiB) in the html and msg kinds: sanitising must not return an error "
         "+ mutated + raw streams; text: words, URLs of many schemes, markup characters, CR/LF combinations, non-ASCII. "
         "distinct = distinct input line; non-trivial = css: the scanner produced >= 3 tokens; html: at least one start tag with attributes "
